@@ -282,7 +282,7 @@ PROPS["C20"] = {
                            "4": "the parser panicked"},
                 "trie": {"1": "the trie returned a template that does not match the looked-up path", "4": "the trie panicked"}},
     "rule": "grammar-directed generation: abstract templates derived from httprule.bnf (literals of every pchar class incl. percent escapes and colons, *, **, variables with 1-3 field path components and 1-3 inner segments, optional verbs, the root template), rendered with and without the {a} shorthand; two single-edit mutants of every rendering (insert / delete / replace / duplicate / drop the leading slash, from an alphabet of structural characters, NUL, space, non-ASCII, broken escapes); noise strings; the near misses named in the property verbatim. Each string goes to the routing parser (+ Compile + runtime.NewPattern), to the strict parser, and sets of parsed templates to the trie with paths built to match or nearly match them",
-    "level_text": "Coq theorems: parse(render t) = Some t for ALL well-formed templates t of the routing parser's model (tokenizer with three states, verb extraction, recursive descent) - every derivable string is accepted with exactly the structure, field paths and verb it was written from; and conversely (gw_parse_sound) every text the routing parser accepts has a derivation in the grammar, stated as a relation on strings (non-empty literals of path characters with well-formed escapes, identifiers in field paths, no NUL, braces balanced) with exactly the returned structure, field paths and verb; rendering is injective (the text determines the structure); compile correctness (the opcode machine computes the template's own matching); opcodes can be read back. The converse (accepted => rendering of the accepted structure) and the strict parser / trie are decided by the executable grammar on every generated string: that half is not a theorem.",
+    "level_text": "Coq theorems: parse(render t) = Some t for ALL well-formed templates t of the routing parser's model (tokenizer with three states, verb extraction, recursive descent) - every derivable string is accepted with exactly the structure, field paths and verb it was written from; and conversely (gw_parse_sound) every text the routing parser accepts has a derivation in the grammar, stated as a relation on strings (non-empty literals of path characters with well-formed escapes, identifiers in field paths, no NUL, braces balanced) with exactly the returned structure, field paths and verb; rendering is injective (the text determines the structure); compile correctness (the opcode machine computes the template's own matching); opcodes can be read back. THE STRICT PARSER (Model/Strict.v, function by function from tokenize.go / parse.go) accepts EXACTLY the strict template language: st_parse s = Some t <-> StrictLang t s (Proofs/StrictProofs.v, StrictCompleteProofs.v) - the language is stated on strings (segment texts joined by '/', '{p}' short for '{p=*}', verb forms), with variables that do not nest, '**' only last (in the template and inside a variable), literals that are not '*' / '**', and the verb after the LAST colon behind a literal; that nesting is impossible is proved from the tokenizer's states carried through the descent; the model's recursion fuel provably never decides. THE TRIE: whatever was added in whatever order, a template Find returns matches the path (TrieProofs.v). All three models are tied to the code differentially on every generated string.",
     "level_note": "Trusted: Coq kernel, extraction, modelrun, Go harness, the generator's coverage of the grammar. The routing-parser model (tokenizer, recursive descent) equals the code on every generated string (hundreds of thousands in the thorough tier).",
     "design_ref": "DESIGN.md §3 C20",
     "assumptions": ["LITERAL is read as one or more pchars for path segments (an empty segment is not a template), zero or more for the verb: '/a:' is '/a' with an empty verb, '/:v' the root with a verb",
@@ -330,3 +330,14 @@ PROPS["C18"] = {
 }
 
 NOT_APPLICABLE = {}
+
+# the method that DECIDES each property (MANIFEST "technique"); the default names proof + correspondence
+TECH = {
+ "C02": "Coq proof over all schedules of the forwarder LTS (termination, cleanup, status source) + differential correspondence; the wall-clock half ('promptly') is measured on the real entry points, not proved",
+ "C12": "Coq proof that the decoder accepts exactly the gRPC timeout grammar (unit table regenerated from the source) and of deadline enforcement on the forwarder LTS + exact differential on ~27k strings; wall-clock margins are measured",
+ "C17": "monitored fuzz stream on the real handlers (panic / stuck handler / malformed response / 5xx) decides 'no crash, no hang' - a total Gallina function cannot panic, so that half has no theorem; Coq theorems cover the modelled decoders' error alphabets (unparsable input => 4xx)",
+ "C18": "the Go race detector on a complete bridge under a 13-goroutine workload decides data-race freedom (monitored, not proved); Coq theorems prove mutual exclusion of the routers' table / watcher mutexes in every reachable state of the LTS",
+ "C20": "machine-checked proof in Coq 8.16.1: routing parser (both directions), strict parser accepts exactly the language (iff), trie soundness over all histories - hand-written Gallina models tied to the Go code differentially on every run",
+}
+for _k, _v in TECH.items():
+    PROPS[_k]["technique"] = _v
